@@ -351,7 +351,8 @@ ModelErr scalarBin(BinOp o, FKind ak, const Val &a, FKind bk, const Val &b,
             case BO_MINIMUM:    z = (x < y) ? x : y; break;
             default:            return ME_UNDEFINED;
         }
-        if (!evp && (z >= TERM_LIMIT || z <= -TERM_LIMIT)) return ME_OVERFLOW;
+        // integer terminals hold -2^30 .. 2^30 - 1
+        if (!evp && (z >= TERM_LIMIT || z < -TERM_LIMIT)) return ME_OVERFLOW;
         if (evp && z < 0) {
             // EV+ functions with negative values are representable, but the
             // oracle only claims the non-negative range the library documents
@@ -409,7 +410,7 @@ ModelErr convertVal(FKind from, const Val &a, FKind to, Val &out)
                 out = Val::n(a.i);
             }
             // multi-terminal integers must fit a terminal
-            if (to == FK_MTI && (out.i >= TERM_LIMIT || out.i <= -TERM_LIMIT)) return ME_OVERFLOW;
+            if (to == FK_MTI && (out.i >= TERM_LIMIT || out.i < -TERM_LIMIT)) return ME_OVERFLOW;
             return ME_NONE;
         default:
             if (a.t == Val::R) out = a;
